@@ -28,7 +28,7 @@ ASSUMPTIONS = [
     "audioSplice with alignToZeroCrossing=True: any praatio error is a rejection (crossing search / boundary shift are documented as unchecked)",
     "audioSplice without alignment: the only accepted rejection is a praatio error when an interval of the target tier straddles the insertion point",
 ]
-REQUIRED_CLASSES = ["search_edit_search:search_edit_search", "zero_crossing:returned_sign_change", "zero_crossing:returned_zero_sample", "zero_crossing:not_found",
+REQUIRED_CLASSES = ["splice:coinciding_points", "splice:point_on_insertion_time", "search_edit_search:search_edit_search", "zero_crossing:returned_sign_change", "zero_crossing:returned_zero_sample", "zero_crossing:not_found",
                     "zero_crossing:step_too_small", "zero_crossing:nonintegral_step", "splice:returned_aligned",
                     "splice:returned_unaligned", "splice:replaced_region", "tg_boundaries:returned"]
 
@@ -270,6 +270,17 @@ def run_splice(case):
     cl = {"returned_aligned" if align else "returned_unaligned"}
     if t_stop is not None:
         cl.add("replaced_region")
+    if len({i for i, _ in case["points"]}) < len(case["points"]):
+        cl.add("coinciding_points")
+    if any(i == case["insert"] for i, _ in case["points"]):
+        cl.add("point_on_insertion_time")
+    # entry counts: nothing before the edit may vanish (checked above); labels of every tier survive unless erased
+    if t_stop is None:
+        for bt, at in zip(before["tiers"], res["tiers"]):
+            want = sorted(e[-1] for e in bt["entries"])
+            got = sorted(e[-1] for e in at["entries"] if e[-1] != "SPLICE")
+            if want != got:
+                raise Violation("labels-changed", f"{what}: tier {bt['name']}: labels {want} became {got}")
     return {"classes": sorted(cl), "nontrivial": True}
 
 
@@ -339,8 +350,8 @@ def splice_cases(draw):
     k = draw(st.integers(0, 3))
     cuts = sorted(draw(st.lists(st.integers(0, n), min_size=2 * k, max_size=2 * k, unique=True)))
     ivs = [[cuts[2 * i], cuts[2 * i + 1], f"w{i}"] for i in range(k)]
-    pts = [[i, f"p{q}"] for q, i in enumerate(sorted(draw(st.lists(st.integers(0, n), max_size=3, unique=True))))]
-    cands = [0, n] + cuts
+    pts = [[i, f"p{q}"] for q, i in enumerate(sorted(draw(st.lists(st.integers(0, n), max_size=4, unique=draw(st.booleans())))))]
+    cands = [0, n] + cuts + [i for i, _ in pts]
     ins = draw(st.one_of(st.sampled_from(cands), st.integers(0, n)))
     stop = None
     if draw(st.integers(0, 2)) == 0:
